@@ -19,6 +19,7 @@ A class outside the subset -> tie `lost`, the committed block is kept.
 """
 import ast
 import os
+import re
 
 from . import tlbparsers as TP
 from . import tlbparsers_blk as TB
@@ -70,6 +71,34 @@ open TonVerif TonVerif.Tlb
 '''
 
 
+def split_group(text):
+    """the `^[…]` group of ShardStateUnsplit - the joined `if not ref.is_special(): … ` block, ONE line group
+    `let (…) ← (if (!(Rd.special cN)) then do … else pure (…))` - is emitted as its own definition `ShardStateUnsplit_group`, so that the
+    proofs (Proofs/SrcLocateHeader.lean `group_isSome`) refer to the generated name and not to a hand copy of the text"""
+    lines = text.split('\n')
+    start = [i for i, l in enumerate(lines) if re.search(r'← \(if \(!\(Rd\.special (c\d+)\)\) then do$', l)]
+    if len(start) != 1:
+        raise Untranslatable('ShardStateUnsplit: the reference group is not one conditional block over `not ref.is_special()`')
+    i = start[0]
+    cvar = re.search(r'Rd\.special (c\d+)', lines[i]).group(1)
+    j = i + 1
+    while j < len(lines) and not lines[j].lstrip().startswith('else pure ('):
+        j += 1
+    if j >= len(lines) or not lines[j].rstrip().endswith('))'):
+        raise Untranslatable('ShardStateUnsplit: end of the reference group not found')
+    tup = re.search(r'else pure \((.*)\)\)$', lines[j].strip()).group(1).split(', ')
+    vals, sl = tup[:-1], tup[-1]
+    if not all(re.fullmatch(r't\d+', v) for v in vals) or not re.fullmatch(r'\w+', sl):
+        raise Untranslatable('ShardStateUnsplit: shape of the skipped reference group')
+    head = lines[i][:lines[i].index('← (if')]
+    body = ['  ' + lines[i][lines[i].index('(if'):]] + lines[i + 1:j + 1]
+    ty = ' × '.join(['Val'] * len(vals) + ['Frag'])
+    gdef = (f'def ShardStateUnsplit_group ({cvar} : Cell) ({sl} : Frag) ({" ".join(vals)} : Val) : Option ({ty}) :=\n'
+            + '\n'.join(body) + '\n\n')
+    lines[i:j + 1] = [f'{head}← ShardStateUnsplit_group {cvar} {sl} {" ".join(vals)}']
+    return gdef + '\n'.join(lines)
+
+
 def generate(repo=REPO, old_text=''):
     tr = TranslatorLoc(repo)
     for cls, head in TB.BASE.items():
@@ -84,6 +113,8 @@ def generate(repo=REPO, old_text=''):
             text, meta = tr.translate(mod, cls)
             if cls == 'ShardAccount' and '("cell", ' not in text:
                 raise Untranslatable('ShardAccount(…) is not constructed with a `cell=` argument')
+            if cls == 'ShardStateUnsplit':
+                text = split_group(text)
             tr.done[cls] = meta
             info[cls] = dict(status='ok', calls=meta['calls'])
         except (Untranslatable, SyntaxError, FileNotFoundError) as ex:
